@@ -582,9 +582,10 @@ func runScenario(t *testing.T, sc scenario) []ev {
 				w.infra("apply: %v", err)
 			}
 			// wait until the controller has applied this version: endpoint set and disabled flags as specified
+			// (an endpoint may be listed more than once: it is disabled when ANY of its entries says so)
 			want := map[string]bool{}
 			for _, sv := range s.Cluster.Servers {
-				want[w.stubs[sv.Stub].srv.URL] = sv.Disabled
+				want[w.stubs[sv.Stub].srv.URL] = want[w.stubs[sv.Stub].srv.URL] || sv.Disabled
 			}
 			w.waitCond("cluster "+uc.Name+" applied", func() bool {
 				ci, ok := w.ctrl.Get(uc.Name)
@@ -797,6 +798,36 @@ func runScenario(t *testing.T, sc scenario) []ev {
 				stub = w.stubOfEndpoint(e.Endpoint)
 			}
 			w.add(ev{"k": "popped", "id": s.ID, "resource": s.Resource, "stub": stub})
+		case "popsync":
+			// N picks with a NO-OP re-sync of the cluster's unchanged object after every pick (what an informer resync or a status-only
+			// update delivers; the controller's worker is idle, so the harness may call Sync itself): the ready set is stable, the
+			// round-robin must go on across the syncs
+			ci, ok := w.ctrl.Get(s.Name)
+			if !ok {
+				w.infra("popsync: no cluster %s", s.Name)
+			}
+			cur, err := w.client.ProxyV1alpha1().UpstreamClusters().Get(context.TODO(), s.Name, metav1.GetOptions{})
+			if err != nil {
+				w.infra("popsync: %v", err)
+			}
+			attrs := authorizer.AttributesRecord{User: &user.DefaultInfo{Name: "u"}, Verb: "get", APIGroup: "", Resource: s.Resource, ResourceRequest: true}
+			got := []int{}
+			for i := 0; i < s.N; i++ {
+				picker, err := ci.MatchAttributes(attrs)
+				if err != nil {
+					got = append(got, -2)
+					continue
+				}
+				if e, err := picker.Pop(); err != nil {
+					got = append(got, -1)
+				} else {
+					got = append(got, w.stubOfEndpoint(e.Endpoint))
+				}
+				if err := ci.Sync(cur.DeepCopy()); err != nil {
+					w.infra("popsync: Sync of the unchanged object failed: %v", err)
+				}
+			}
+			w.add(ev{"k": "picks", "name": s.Name, "resource": s.Resource, "picked": got, "g": 1, "resync": true})
 		case "firstpicks": // G pickers released together make ONE pick each (the first picks of a ready set after a change)
 			ci, ok := w.ctrl.Get(s.Name)
 			if !ok {
